@@ -308,8 +308,89 @@ def tag_collisions(out, n):
     return clash
 
 
+INPROC = textwrap.dedent('''
+    import sys, json, os, time, importlib
+    root, repo, name, script = sys.argv[1], sys.argv[2], sys.argv[3], json.loads(sys.argv[4])
+    sys.dont_write_bytecode = False
+    sys.path[:0] = [root, repo]
+    import jaxtyping
+    path = os.path.join(root, name + ".py")
+    SRC = "VERSION = {V}\\ndef f(x: int) -> int:\\n    return VERSION\\n{PAD}"
+    out, hook, stamp = [], None, 1_600_000_000
+    def write(v):
+        global stamp
+        stamp += 1000
+        with open(path, "w") as fh:
+            fh.write(SRC.format(V=v, PAD="# pad\\n" * v))
+        os.utime(path, (stamp, stamp))
+        importlib.invalidate_caches()
+    import spy_a
+    for step in script:
+        if step[0] == "write":
+            write(step[1])
+        elif step[0] == "hook":
+            hook = jaxtyping.install_import_hook([name], step[1])
+        elif step[0] == "unhook":
+            hook.uninstall(); hook = None
+        elif step[0] in ("import", "reload", "reimport"):
+            spy_a.SEEN.clear()
+            try:
+                if step[0] == "reload":
+                    mod = importlib.reload(sys.modules[name])
+                else:
+                    if step[0] == "reimport":
+                        sys.modules.pop(name, None)
+                    mod = importlib.import_module(name)
+                out.append({"step": step[0], "version": mod.VERSION, "instr": name in spy_a.SEEN})
+            except BaseException as e:
+                out.append({"step": step[0], "error": type(e).__name__ + ": " + str(e)[:200]})
+    print(json.dumps(out))
+''')
+
+
+def in_process_cases(out, seed):
+    """histories inside ONE interpreter over one cache directory (reload, delete-and-import-again, the hook taken down
+    and installed again, an edit in between): every load executes the source as it is now, instrumented iff the hook in
+    force at that moment calls for it — whatever the process has loaded before"""
+    scripts = {
+        "edit-then-reload": [["write", 1], ["hook", "spy_a.check"], ["import"], ["write", 2], ["reload"], ["write", 3], ["reimport"]],
+        "unhook-then-reimport": [["write", 1], ["hook", "spy_a.check"], ["import"], ["unhook"], ["reimport"], ["hook", "spy_a.check"], ["reimport"]],
+        "plain-then-hooked": [["write", 1], ["import"], ["hook", "spy_a.check"], ["reimport"], ["write", 2], ["reload"], ["unhook"], ["write", 3], ["reload"]],
+        "same-source-reload": [["write", 1], ["hook", "spy_a.check"], ["import"], ["reload"], ["reimport"]],
+    }
+    with scratch_dir("jaxverif_c18ip_") as root:
+        with open(os.path.join(root, "spy_a.py"), "w") as fh:
+            fh.write(SPY)
+        for sname, script in scripts.items():
+            name = f"ip{seed}_{sname.replace('-', '_')}"
+            r = subprocess.run([PY, "-c", INPROC, root, REPO, name, json.dumps(script)], capture_output=True, text=True, timeout=300,
+                               env={k: v for k, v in os.environ.items() if k not in ("PYTHONDONTWRITEBYTECODE",)})
+            try:
+                got = json.loads(r.stdout.strip().splitlines()[-1])
+            except Exception:  # noqa: BLE001
+                out.violation("in-process:run-failed", f"the in-process history {sname} failed: {r.stderr[-300:]}", {"in_process": sname})
+                continue
+            # what the configuration calls for at each load
+            want, version, hooked = [], None, False
+            for step in script:
+                if step[0] == "write":
+                    version = step[1]
+                elif step[0] == "hook":
+                    hooked = True
+                elif step[0] == "unhook":
+                    hooked = False
+                else:
+                    want.append({"step": step[0], "version": version, "instr": hooked})
+            out.case(("in-process", sname), True, sample={"history": sname, "script": script, "observed": got})
+            if got != want:
+                k = next((i for i, (a, b) in enumerate(zip(got, want)) if a != b), min(len(got), len(want)))
+                out.violation(f"in-process:{sname}", f"one interpreter, history {script}: load {k} gives {got[k] if k < len(got) else None}, the current source and hook call for "
+                              f"{want[k] if k < len(want) else None}", {"in_process": sname, "script": script})
+
+
 def run(tier, seed, out, drv, facts):
     rng = Rng(seed, "C18")
+    in_process_cases(out, seed)
     thorough = tier == "thorough"
     histories = list(FIXED) + [gen_history(rng) for _ in range(140 if thorough else 6)]
     clash = tag_collisions(out, 800000 if thorough else 220000)
@@ -330,6 +411,9 @@ def run(tier, seed, out, drv, facts):
 
 
 def replay(rep, out, drv, facts):
+    if "in_process" in rep:
+        in_process_cases(out, 0)
+        return
     with scratch_dir("jaxverif_c18_") as root:
         for nm in ("spy_a", "spy_b"):
             with open(os.path.join(root, nm + ".py"), "w") as fh:
